@@ -144,7 +144,7 @@ def written_args(func):
 
 class Engine(TorchDispatchMode):
     def __init__(self, witness=None, prefix=(), seed=0, crosscheck=True, trace_functions=True, cut_sites=(),
-                 range_mode="assume"):
+                 range_mode="assume", item_whitelist=()):
         super().__init__()
         self.store = {}
         self.keep = []
@@ -179,9 +179,11 @@ class Engine(TorchDispatchMode):
         self.max_ops = 400000
         self.cstore = {}  # complex storages: key -> (re flat array, im flat array)
         self.strict_crosscheck = True
-        self.item_whitelist = ()
+        self.item_whitelist = tuple(item_whitelist)
         self.mismatches = 0
         self.stub_log = []
+        self.tie_flips = 0
+        self.folded_decisions = 0
         self.track_constants = True
         self.registered_svd = []
 
@@ -313,6 +315,8 @@ class Engine(TorchDispatchMode):
              distinct=False, ascending=False):
         """create a symbolic leaf tensor (and its concrete shadow at the witness point)"""
         shape = tuple(shape)
+        if name in self.leaves:
+            raise RuntimeError(f"harness bug: duplicate leaf name {name!r}")
         n = int(np.prod(shape)) if len(shape) else 1
         sort = {"real": T.R, "int": T.Z, "bool": T.B}[kind]
         rng = self.rng
@@ -535,7 +539,33 @@ class Engine(TorchDispatchMode):
         cond = T.to_bool(cond)
         if T.is_const(cond):
             return bool(cond)
+        folded = self._fold_near_tie(cond)
+        if folded is not None:
+            return folded
         return self.choose([(True, cond), (False, T.lnot(cond))], site)
+
+    def _fold_near_tie(self, cond):
+        """a float comparison whose two sides agree to rounding at the witness may be an identity in R (e.g. a residual that
+        is identically zero): decide it by normal form instead of by the rounded witness"""
+        c = cond
+        while T.is_term(c) and c.op == "not":
+            c = c.args[0]
+        if not (T.is_term(c) and c.op in ("lt", "le", "eq")):
+            return None
+        a, b = c.args
+        if T.sort_of(a) != T.R and T.sort_of(b) != T.R:
+            return None
+        va, vb = T.evalf([a, b], self.env)
+        if not (va == va and vb == vb) or abs(va - vb) > 1e-7 * (1.0 + abs(va) + abs(vb)):
+            return None
+        from .norm import path_fixed
+        from .solve import norm_fold
+
+        r = norm_fold(cond, path_fixed(self.path))
+        if r is cond:
+            return None
+        self.folded_decisions += 1
+        return bool(r)
 
     def assume(self, cond, why):
         cond = T.to_bool(cond)
